@@ -122,11 +122,12 @@ def Rec.nil : Rec := { ty := 0, parent := none, first := none, last := none, pre
 /-- Store described by a list of records (node id = index). Ids beyond the list are
 unlinked. -/
 def ofList (l : List Rec) : Store :=
-  { parent := fun i => (l.getD i Rec.nil).parent,
-    first := fun i => (l.getD i Rec.nil).first,
-    last := fun i => (l.getD i Rec.nil).last,
-    prev := fun i => (l.getD i Rec.nil).prev,
-    next := fun i => (l.getD i Rec.nil).next }
+  let a := l.toArray   -- O(1) lookups in the compiled monitor
+  { parent := fun i => (a.getD i Rec.nil).parent,
+    first := fun i => (a.getD i Rec.nil).first,
+    last := fun i => (a.getD i Rec.nil).last,
+    prev := fun i => (a.getD i Rec.nil).prev,
+    next := fun i => (a.getD i Rec.nil).next }
 
 /-- Node types the parser may return (node.go): Text=1, Document=2, Element=3,
 Comment=4, Doctype=5. Never ErrorNode(0), RawNode(6), scopeMarkerNode(7). -/
